@@ -102,6 +102,9 @@ _COLLIDERS = [
 
 _T = typing.TypeVar("_T")
 QSeq = typing.TypeAliasType("QSeq", cabc.Sequence[_T], type_params=(_T,))
+# the same alias with a parameter *named like* the type variable generic classes usually declare
+_TT = typing.TypeVar("T")  # noqa: PLC0132
+TSeq = typing.TypeAliasType("TSeq", cabc.Sequence[_TT], type_params=(_TT,))
 
 FOREIGN = Foreign()
 _UUID = uuid.UUID(int=7)
